@@ -245,6 +245,18 @@ def main():
             checks += [onp.all(grad_named(_M().meth, "a_")(a, b) == 2.0 * a * b * p), onp.all(grad_named(_M().meth, "b_")(a, b) == a * a * p),
                        onp.all(grad_named(_M.cmeth, "b_")(a, b) == a * a * p), onp.all(grad_named(_M.smeth, "a_")(a, b) == 2.0 * a * b * p),
                        onp.all(grad_named(_M().smeth, "b_")(a, b) == a * a * p)]
+            # ... on a method reached through its class (called with an explicit instance) and on a plain function whose
+            # first parameter happens to be called `self` / `cls`: those ARE arguments of the call
+            def _selfish(self, a_, b_):
+                return anp.sum(a_ * a_ * b_) * self
+
+            def _clsish(cls, b_):
+                return anp.sum(b_ * b_) * cls
+            checks += [neg(lambda: onp.all(grad_named(_M.meth, "a_")(_M(), a, b) == 2.0 * a * b * p)),
+                       neg(lambda: onp.all(grad_named(_M.meth, "b_")(_M(), a, b) == a * a * p)),
+                       neg(lambda: onp.all(grad_named(_selfish, "b_")(p, a, b) == a * a * p)),
+                       neg(lambda: float(grad_named(_selfish, "self")(p, a, b)) == float(onp.sum(a * a * b))),
+                       neg(lambda: onp.all(grad_named(_clsish, "b_")(p, b) == 2.0 * b * p))]
             # ... on callable objects and partial applications (the call takes the parameters that remain)
             import functools as _ft
 
